@@ -195,8 +195,14 @@ Definition do_bind (l : Z) (b : bstate) : bstate * Z :=
   else (add_node (match find (is_label_id l) (pool b) with Some n => n | None => label_node l end)
                  (with_pool b (remove_first (is_label_id l) (pool b))), kOk).
 
-(* EmitterUtils::op_count_from_emit_args *)
+(* EmitterUtils::op_count_from_emit_args as repaired by fixes/C08-op-count-keeps-operands-after-hole.patch: the count covers every slot up to
+   the LAST used one, so an operand that follows an empty slot is kept (the Assembler looks at all six slots) *)
 Definition op_count (o0 o1 o2 o3 o4 o5 : operand) : nat :=
+  (if negb (is_none o5) then 6 else if negb (is_none o4) then 5 else if negb (is_none o3) then 4
+   else if negb (is_none o2) then 3 else if negb (is_none o1) then 2 else if negb (is_none o0) then 1 else 0)%nat.
+
+(* the counting rule before that repair: the extended slots stop counting at their first empty one, and an empty slot 3 hides slots 4 and 5 *)
+Definition op_count_legacy (o0 o1 o2 o3 o4 o5 : operand) : nat :=
   if is_none o3 then
     (if negb (is_none o2) then 3 else if negb (is_none o1) then 2 else if negb (is_none o0) then 1 else 0)%nat
   else if is_none o4 then 4%nat else if is_none o5 then 5%nat else 6%nat.
@@ -409,8 +415,8 @@ Inductive ecall :=
 Record pend := mkP { q_opts : Z; q_exsig : Z; q_exid : Z; q_comment : option bytes }.
 Definition pend0 : pend := mkP 0 0 0 None.
 
-(* operands as the encoder can see them: everything from the first "none" slot of the extended part on is ignored
-   (EmitterUtils::op_count_from_emit_args); the three base slots are passed as they are *)
+(* operands as the encoder can see them: all six slots; the empty slots after the last used one are normalised to op_none (an empty
+   operand is recognised by its signature alone) *)
 Definition canon_ops (o0 o1 o2 o3 o4 o5 : operand) : list operand :=
   let n := op_count o0 o1 o2 o3 o4 o5 in
   firstn n [o0; o1; o2; o3; o4; o5] ++ repeat op_none (6 - n).
